@@ -4,6 +4,8 @@ See `py/props/c06.py` for the producer of each command.
 -/
 import WpModel.Model.Wire
 import WpModel.Model.StyleDoc
+import WpModel.Model.StyleMemo
+import WpModel.Model.C06Branches
 
 namespace Wp.Drive.Cascade
 open Wp Wp.Cascade Wp.Computed Wp.Style Wp.StyleDoc
@@ -170,6 +172,15 @@ def env? : Sx → Option Env
            exRatio := ← ex.rat?, chRatio := ← ch.rat?,
            get := getFrom "style" gets, specified := getFrom "specified" specs,
            isRoot := ← isRoot.bool?, pseudo := ← pseudo.bool? }
+  | .list [fs, root, pfs, pfw, ex, ch, .list gets, .list specs, isRoot, pseudo, .list attrs] => do
+    let gets ← allSome kv? gets
+    let specs ← allSome kv? specs
+    let attrs ← allSome kv? attrs
+    pure { fontSize := ← thunkRat? fs, rootFontSize := ← thunkRat? root,
+           parentFontSize := ← optOf thunkRat? pfs, parentFontWeight := ← optOf thunkVal? pfw,
+           exRatio := ← ex.rat?, chRatio := ← ch.rat?,
+           get := getFrom "style" gets, specified := getFrom "specified" specs,
+           isRoot := ← isRoot.bool?, pseudo := ← pseudo.bool?, attr := fun k => lookup k attrs }
   | _ => none
 
 /-! ### styles -/
@@ -180,6 +191,8 @@ def cascKv? : Sx → Option (String × Casc)
 
 /-- `(pseudo|none (key casc)…)` -/
 def elem? : Sx → Option Elem
+  | .list (pseudo :: .list (.atom "@" :: attrs) :: kvs) => do
+    pure { pseudo := ← optOf Sx.atom? pseudo, cascaded := ← allSome cascKv? kvs, attrs := ← allSome kv? attrs }
   | .list (pseudo :: kvs) => do
     pure { pseudo := ← optOf Sx.atom? pseudo, cascaded := ← allSome cascKv? kvs }
   | _ => none
@@ -194,6 +207,10 @@ def sheetKind? : Sx → Option SheetKind
 def docSheet? : Sx → Option DocSheet
   | .list [kind, media, .list rules] => do
     pure { kind := ← sheetKind? kind, media := ← optOf strList? media, rules := ← allSome srule? rules }
+  | .list [kind, media, .list rules, .list [.atom mime, isLink, hasHref, rels, fetchOk]] => do
+    pure { kind := ← sheetKind? kind, media := ← optOf strList? media, rules := ← allSome srule? rules,
+           elem := { mime := mime, isLink := ← isLink.bool?, hasHref := ← hasHref.bool?, rels := ← strList? rels,
+                     fetchOk := ← fetchOk.bool? } }
   | _ => none
 
 def ruleDecls? : Sx → Option (Nat × List (Decl Casc))
@@ -215,6 +232,9 @@ def matchRef? : Sx → Option MatchRef
 def docElem? : Sx → Option DocElem
   | .list [.list attrs, .list ms] => do
     pure { attrs := ← allSome attrBlock? attrs, hits := ← allSome matchRef? ms }
+  | .list [.list attrs, .list ms, .list elemAttrs] => do
+    pure { attrs := ← allSome attrBlock? attrs, hits := ← allSome matchRef? ms,
+           elemAttrs := ← allSome kv? elemAttrs }
   | _ => none
 
 def showKeys (f : String → Except CErr Val) (keys : List String) : String :=
@@ -280,6 +300,37 @@ def handle (cmd : String) (args : List Sx) : Option String :=
     let chain ← allSome elem? chain
     let keys ← allSome Sx.atom? keys
     pure (showKeys (styleAt ex ch chain) keys)
+  | "specbranch", [ex, ch, .list chain, .atom key] => do
+    let ex ← ex.rat?
+    let ch ← ch.rat?
+    let chain ← allSome elem? chain
+    match chain with
+    | [] => none
+    | [e] => pure (C06Branches.specifiedBranch e none key)
+    | e :: p :: rest =>
+      if e.cascaded.isEmpty then pure "anonymous-style"
+      else pure (C06Branches.specifiedBranch e
+        (some (styleAtWith (rootFontSizeOf ex ch (e :: p :: rest)) ex ch (p :: rest))) key)
+  | "lengthbranch", [v, fs, pixelsOnly] => do
+    pure (C06Branches.lengthBranch (← Val.ofSx? v) (← optOf Sx.rat? fs) (← pixelsOnly.bool?))
+  | "fsbranch", [parent, v] => do
+    pure (C06Branches.fontSizeBranch (← optOf Sx.rat? parent) (← Val.ofSx? v))
+  | "pmbranch", [sel, page] => do
+    pure (C06Branches.pageMatchBranch (← pageSelector? sel) (← pageType? page))
+  | "universe", [.atom name] =>
+    match name with
+    | "length" => pure (" ".intercalate C06Branches.lengthUniverse)
+    | "pagematch" => pure (" ".intercalate C06Branches.pageMatchUniverse)
+    | "fontsize" => pure (" ".intercalate C06Branches.fontSizeUniverse)
+    | _ => none
+  | "readseq", [ex, ch, .list chain, .list keys] => do
+    let ex ← ex.rat?
+    let ch ← ch.rat?
+    let chain ← allSome elem? chain
+    let keys ← allSome Sx.atom? keys
+    let c ← StyleMemo.ctxOf ex ch chain
+    pure (" ".intercalate ((keys.zip (StyleMemo.readSeq c [] keys)).map
+      (fun p => p.1 ++ "=" ++ showValE p.2)))
   | "docstyle", [doc, ex, ch, .list path, pseudo, .list keys] => do
     let doc ← doc? doc
     let ex ← ex.rat?
